@@ -10,12 +10,13 @@
    Guard: [c02_guard] (see Properties/C02.v); additionally the correspondence
    stream excludes generic structs (K_opt_generic), structs that embed a struct
    with defaults of its own (K_opt_promoted_setdefault) and colliding option
-   names.  Options applied to a value with a nil embedded pointer on the path
+   names, and structs with excluded fields (which get no option: K_opt_excluded_field).
+   Options applied to a value with a nil embedded pointer on the path
    panic (K_opt_nil_embed): the sequence theorem asks for a start value in which
    the option fields can be read, which NewT's result always is. *)
 From Coq Require Import String Ascii List Bool Arith ZArith.
 From Shoot Require Import Base.Str Base.GoVal Model.Transfer Model.CtorDirective Model.Ctor Model.CtorSpec Model.CtorOpt.
-From Shoot Require Import Proofs.CtorC02Proofs Proofs.CtorOptProofs.
+From Shoot Require Import Proofs.CtorC02Proofs Proofs.CtorOptProofs Proofs.CtorOptMethodProofs.
 Import ListNotations.
 Local Open Scope string_scope.
 
@@ -99,12 +100,50 @@ Theorem C13_new_value_readable : forall pkg fl fuel sd fs hn args,
 Proof. exact new_value_readable. Qed.
 Print Assumptions C13_new_value_readable.
 
-(* shoot.NewWith(opts) = new(T).With(opts) when *T's SetDefault is T's own *)
-Theorem C13_new_with_is_with_on_zero : forall pkg fuel sd od opts,
-  new_with pkg fuel sd od (od_has_default od) opts =
-  with_ pkg fuel sd od (VPtr (zero_struct pkg fuel (self_inst sd))) opts.
-Proof. exact new_with_is_with_on_zero. Qed.
-Print Assumptions C13_new_with_is_with_on_zero.
+(* shoot.NewWith as the runtime runs it -- new(T), then the SetDefault that *T's METHOD SET
+   contains (T's own, or one promoted from an embedded struct by Go's selector rule), then the
+   options -- equals new(T).With(opts) inside the guard (which excludes embedded structs with
+   defaults of their own: K_opt_promoted_setdefault, refuted below) *)
+Theorem C13_new_with_is_with : forall pkg fl fuel sd fs hn short opts,
+  flatten pkg fl fuel sd = COk (fs, hn) ->
+  c13_guard short pkg fuel sd = true ->
+  new_with_real pkg fl fuel sd opts =
+  with_ pkg fuel sd (make_opt fl sd (make_new sd hn fs)) (VPtr (zero_struct pkg fuel (self_inst sd))) opts.
+Proof. exact new_with_real_is_with. Qed.
+Print Assumptions C13_new_with_is_with.
+
+(* the type has a SetDefault (and With calls it) exactly when its declaration carries a default
+   on a field that is not excluded *)
+Theorem C13_has_default_iff_declared : forall pkg fl fuel sd fs hn,
+  flatten pkg fl fuel sd = COk (fs, hn) ->
+  c02_guard pkg fuel sd = true ->
+  od_has_default (make_opt fl sd (make_new sd hn fs)) = decl_has_def sd.
+Proof. exact has_default_iff_decl. Qed.
+Print Assumptions C13_has_default_iff_declared.
+
+(* nothing else changes, for whole sequences: a path overlapping none of the assigned fields
+   reads the same before and after With, whatever the sequence *)
+Theorem C13_with_changes_nothing_else : forall pkg fuel sd od v opts v' q,
+  with_ pkg fuel sd od v opts = Ok v' ->
+  (forall o p, In o (with_sequence od opts) -> resolve pkg fuel sd (opt_field o) = Some p -> diverge p q = true) ->
+  lookup v' q = lookup v q.
+Proof. exact with_changes_nothing_else. Qed.
+Print Assumptions C13_with_changes_nothing_else.
+
+(* ... instantiated: EVERY leaf of the struct graph (shadowed promoted fields and excluded
+   fields included) that is not the field of an option / default of the sequence is unchanged *)
+Theorem C13_with_frame_all_leaves : forall pkg fl fuel sd fs hn v opts v' q,
+  flatten pkg fl fuel sd = COk (fs, hn) ->
+  c02_guard pkg fuel sd = true ->
+  let nd := make_new sd hn fs in
+  let od := make_opt fl sd nd in
+  with_ pkg fuel sd od v opts = Ok v' ->
+  (forall o, In o opts -> In (opt_field o) (nd_all nd)) ->
+  In q (leaf_paths pkg fuel (self_inst sd) []) ->
+  (forall o, In o (with_sequence od opts) -> resolve pkg fuel sd (opt_field o) <> Some q) ->
+  lookup v' q = lookup v q.
+Proof. exact with_frame_all_leaves. Qed.
+Print Assumptions C13_with_frame_all_leaves.
 
 (* ------------------------------------------------------------------ examples *)
 Definition fd (n : list ident) (t : ty) : fdecl := {| fd_names := n; fd_ty := t; fd_doc := ""; fd_tag := None |}.
@@ -148,8 +187,8 @@ Qed.
 Theorem C13_refuted_K_opt_nil_embed :
   exists nd od,
     opt_of ex_pkg opt_flags 5 ex_conf = COk (nd, od) /\ In "z" (nd_all nd) /\
-    new_with ex_pkg 5 ex_conf od (od_has_default od) [OptV "z" (VSent 1)] = Panic /\
-    (exists v, new_with ex_pkg 5 ex_conf od (od_has_default od) [OptV "host" (VSent 1)] = Ok v).
+    new_with_real ex_pkg opt_flags 5 ex_conf [OptV "z" (VSent 1)] = Panic /\
+    (exists v, new_with_real ex_pkg opt_flags 5 ex_conf [OptV "host" (VSent 1)] = Ok v).
 Proof.
   do 2 eexists. split; [vm_compute; reflexivity|]. split; [vm_compute; tauto|].
   split; [vm_compute; reflexivity|]. eexists. vm_compute. reflexivity.
@@ -163,9 +202,28 @@ Definition w_base := st "Base" [fdd ["z"] (TBasic "int") ("shoot: def=7" ++ nl);
 Definition w_order := st "Order" [fd [] (TNamed "" "Base" []); fd ["n"] (TBasic "int")].
 Theorem C13_refuted_K_opt_promoted_setdefault :
   no_promoted_setdefault [w_base; w_order] 5 w_order = false /\
-  exists nd od, opt_of [w_base; w_order] opt_flags 5 w_order = COk (nd, od) /\ od_has_default od = false.
-Proof. split; [vm_compute; reflexivity|]. do 2 eexists. split; vm_compute; reflexivity. Qed.
+  setdefault_target [w_base; w_order] 5 w_order = Some (["Base"], w_base) /\
+  exists nd od v1 v2,
+    opt_of [w_base; w_order] opt_flags 5 w_order = COk (nd, od) /\ od_has_default od = false /\
+    new_with_real [w_base; w_order] opt_flags 5 w_order [] = Ok v1 /\ lookup v1 ["Base"; "z"] = Ok (VDef "7") /\
+    with_ [w_base; w_order] 5 w_order od (VPtr (zero_struct [w_base; w_order] 5 (self_inst w_order))) [] = Ok v2 /\
+    lookup v2 ["Base"; "z"] = Ok VZero.
+Proof.
+  split; [vm_compute; reflexivity|]. split; [vm_compute; reflexivity|].
+  do 4 eexists. split; [vm_compute; reflexivity|]. split; [reflexivity|].
+  split; [vm_compute; reflexivity|]. split; [reflexivity|]. split; [vm_compute; reflexivity|]. reflexivity.
+Qed.
 Print Assumptions C13_refuted_K_opt_promoted_setdefault.
+
+(* K_opt_excluded_field: "every field gets an option": a new:"-" (or _) field gets none *)
+Definition w_conf7 := st "Conf" [fd ["name"] (TBasic "string");
+                                 {| fd_names := ["secret"]; fd_ty := TBasic "string"; fd_doc := ""; fd_tag := Some "`new:""-""`" |}].
+Theorem C13_refuted_K_opt_excluded_field :
+  no_excluded_own w_conf7 = false /\
+  In ["secret"] (leaf_paths [w_conf7] 5 (self_inst w_conf7) []) /\
+  exists nd od, opt_of [w_conf7] opt_flags 5 w_conf7 = COk (nd, od) /\ map (fun o => snd (fst o)) (od_options od) = ["name"].
+Proof. split; [reflexivity|]. split; [vm_compute; tauto|]. do 2 eexists. split; vm_compute; reflexivity. Qed.
+Print Assumptions C13_refuted_K_opt_excluded_field.
 
 (* K_opt_generic: for a generic struct the option function name carries the type
    parameter names: not an identifier *)
